@@ -5,9 +5,13 @@
    float() is a concrete syntactic recogniser (float_parse) plus an abstract value/order (Section).
    Not modelled (the model answers [.. Unmodelled]): RFC 2047 encoded words (decode_rfc2047_charset
    guard true) and RFC 2231 parameter names (a '*' in a parameter name).
+   Two variants (Lib/Variant.v; T1 probes EMPTY_Q_VARIANT and ACCEPT_EXT_VARIANT in Gen/AcceptT.v say which the
+   working tree implements): [vq] - an empty q text gives the quality None (AsFound) or is handed to float() like
+   every other text (Repaired); [vx] - parameters after the quality value are part of the text handed to float()
+   (AsFound: always refused) or are appended to the parameters of the element (Repaired).
    Definitions only; proofs are in Proofs/Accept.v. *)
 From Coq Require Import ZArith.
-From Httoop Require Export Model.ElemLex Gen.AcceptT Gen.PercentT Model.Percent.
+From Httoop Require Export Lib.Variant Model.ElemLex Gen.AcceptT Gen.PercentT Model.Percent.
 Local Open Scope N_scope.
 
 Definition LQ : byte := x71.  (* q *)
@@ -233,6 +237,7 @@ Section Quality.
 Context {Q : Type}.
 Variable parse_q : bool -> bytes -> qres Q.     (* float(text) for a bytes / str argument *)
 Variable qeqb qltb : Q -> Q -> bool.            (* == and < on the values *)
+Variable vq vx : variant.                       (* empty q text / accept-ext parameters: as found or repaired *)
 
 Record elem := mkelem {
   e_value : bytes;
@@ -261,9 +266,11 @@ Fixpoint get_param (k : bytes) (ps : list (bytes * bytes)) : option bytes :=
 Definition compose (value : bytes) (qbytes : bool) (ps : list (bytes * bytes)) : bytes :=
   value ++ flat_map (fun kv => [SEMI; SP] ++ formatparam (fst kv) (negb (qbytes && bytes_eqb (fst kv) QKEY)) (snd kv)) ps.
 
-(* the q part after the separator goes through HeaderElement.parse and bytes():
-   Some text | invalid (it has parameters: the text contains ';' and is never a float) *)
-Inductive qpart := QNoSep | QText (t : bytes) | QInvalid | QUnmodelled.
+(* the q part after the separator goes through HeaderElement.parse:
+   the q text and the accept-ext parameters that follow it.
+   AsFound: the q parameter is bytes() of that element, so with parameters the text handed to float() contains ';'
+   and is never a float: invalid.  Repaired: the q parameter is the value alone, the parameters are kept. *)
+Inductive qpart := QNoSep | QText (t : bytes) (ext : list (bytes * bytes)) | QInvalid | QUnmodelled.
 Definition parse_qpart (after : option bytes) : qpart :=
   match after with
   | None => QNoSep
@@ -271,12 +278,15 @@ Definition parse_qpart (after : option bytes) : qpart :=
       let a' := strip a in
       if rfc2047_guard a' then QUnmodelled
       else match parseparams a' with
-           | POk v [] => QText v
-           | POk _ (_ :: _) => QInvalid
+           | POk v [] => QText v []
+           | POk v (x :: r) => match vx with AsFound => QInvalid | Repaired => QText v (x :: r) end
            | PInvalid => QInvalid
            | PUnmodelled => QUnmodelled
            end
   end.
+
+Definition has_key (ps : list (bytes * bytes)) (kv : bytes * bytes) : bool :=
+  match get_param (fst kv) ps with Some _ => true | None => false end.
 
 (* _AcceptElement.parse followed by __init__/sanitize; [star]: the class rewrites "*" to "*/*" (Accept) *)
 Definition accept_parse (star : bool) (s : bytes) : eres :=
@@ -291,16 +301,19 @@ Definition accept_parse (star : bool) (s : bytes) : eres :=
         | PUnmodelled => EUnmodelled
         | PInvalid => EInvalid
         | POk mt ps =>
-            let '(qbytes, ps') := match qp with QText t => (true, set_param QKEY t ps) | _ => (false, ps) end in
-            let qtext := match get_param QKEY ps' with Some t => t | None => ONE end in
-            let value := if star && bytes_eqb mt [STAR] then [STAR; SLASH; STAR] else mt in
-            let mk q := EOk (mkelem value ps' qbytes q (compose value qbytes ps')) in
-            if isnil qtext then mk None
-            else match parse_q qbytes qtext with
-                 | QVal q => mk (Some q)
-                 | QBad => EInvalid          (* Quality value must be float. *)
-                 | QUnk => EUnmodelled
-                 end
+            let '(qbytes, ps0, ext) := match qp with QText t ext => (true, set_param QKEY t ps, ext) | _ => (false, ps, []) end in
+            if existsb (has_key ps0) ext then EInvalid          (* Parameter given twice (an accept-ext name that is q or a media-range parameter) *)
+            else
+              let ps' := ps0 ++ ext in
+              let qtext := match get_param QKEY ps' with Some t => t | None => ONE end in
+              let value := if star && bytes_eqb mt [STAR] then [STAR; SLASH; STAR] else mt in
+              let mk q := EOk (mkelem value ps' qbytes q (compose value qbytes ps')) in
+              if (match vq with AsFound => isnil qtext | Repaired => false end) then mk None
+              else match parse_q qbytes qtext with
+                   | QVal q => mk (Some q)
+                   | QBad => EInvalid          (* Quality value must be float. *)
+                   | QUnk => EUnmodelled
+                   end
         end
     end.
 
